@@ -33,6 +33,7 @@ THEOREMS_COUNTS = [
     "Scc.Props.C11.C11_share_ops",
     "Scc.Props.C11.C11_counts_balance",
     "Scc.Props.C11.C11_new_variable_holds",
+    "Scc.Props.C11.C11_erase_once_backends",
 ]
 
 X86_REGS = ["rsp", "rcx", "rbx", "rbp", "rax", "rdx", "rsi", "rdi", "r8", "r9", "r10", "r11", "r12", "r13", "r14", "r15"]
